@@ -260,7 +260,7 @@ EXPORT errno_t _wcsncat_s_chk(wchar_t *restrict dest, rsize_t dmax,
         }
 
         while (dmax > 0) {
-            if (unlikely(src == overlap_bumper)) {
+            if (unlikely(src == overlap_bumper && slen > 0)) {
                 handle_werror(orig_dest, orig_dmax,
                               "wcsncat_s: "
                               "overlapping objects",
